@@ -224,7 +224,27 @@ def rule_surv(ctx):
             ("self.edges[" in txt and "-" in txt)
         out = "self.output" in txt
         ors = any(isinstance(c, ast.BoolOp) and isinstance(c.op, ast.Or) for c in conds)
-        if other and out and ors:
+        # the two disjuncts are bare tests: a conjunct or negation inside either of
+        # them narrows (or widens) the rule for some class of indices
+        narrowed = None
+        for c in conds:
+            if isinstance(c, ast.BoolOp) and isinstance(c.op, ast.Or):
+                for v in c.values:
+                    if any(isinstance(x, ast.BoolOp) or
+                           (isinstance(x, ast.UnaryOp) and isinstance(x.op, ast.Not)) or
+                           (isinstance(x, ast.Compare) and isinstance(x.ops[0], (ast.NotIn,)))
+                           for x in ast.walk(v)):
+                        narrowed = v
+                if len(c.values) != 2:
+                    narrowed = narrowed or c
+        if len(conds) != 1:
+            narrowed = narrowed or (conds[-1] if conds else None)
+        if other and out and ors and narrowed is not None:
+            r.violation(key, C.loc(f, narrowed), "hypergraph survival rule carries an extra "
+                        f"clause `{C.unparse(narrowed, 80)}`: an index still on another node (a "
+                        "hyper index) or in the output is no longer kept unconditionally, unlike "
+                        "in the tree and the processor", cond=txt)
+        elif other and out and ors:
             r.ok(key, f.loc, "keep iff still on another node or in the output")
         else:
             r.violation(key, f.loc, "hypergraph survival rule is not 'on another node OR in the "
@@ -373,4 +393,15 @@ def rule_pre(ctx):
     return r
 
 
-RULES = [rule_surv, rule_appear, rule_drop, rule_pre]
+def rule_report(ctx):
+    """Shared with C08-REFRESH: the costs an optimizer reports for its result are those
+    of the tree it returns only if they are refreshed after every in-place
+    post-processing of that tree."""
+    from .c08 import rule_refresh as src
+
+    return C.reuse_rule(ctx, src, "C08-REFRESH", "C18-REPORT",
+                        "reported costs are recomputed from the tree that is returned",
+                        lambda i: True, 3)
+
+
+RULES = [rule_surv, rule_appear, rule_drop, rule_pre, rule_report]
